@@ -443,10 +443,21 @@ class Partitioner:
             rank, lambda expr: Symbol(part_rank.lower()) in expr.atoms(Symbol))
         sym_step = CoordAccess.build_expr(
             CoordAccess.isolate_rank(expr, part_rank))
-        rank_step = cast(
-            Expression, TransUtils.sub_hifiber(
-                sym_step, EVar(
-                    part_rank.lower()), step))
+        rank_var = EVar(part_rank.lower())
+        rank_step: Expression
+        if sym_step == rank_var:
+            rank_step = step
+
+        else:
+            # The step is substituted into a larger term, so a compound step
+            # must be parenthesized to keep its meaning
+            sub_step: Expression = step
+            if isinstance(step, EBinOp):
+                sub_step = EParens(step)
+
+            rank_step = cast(
+                Expression, TransUtils.sub_hifiber(
+                    sym_step, rank_var, sub_step))
 
         args.append(AJust(rank_step))
         args.append(AParam("depth", EInt(depth)))
